@@ -1,6 +1,7 @@
 package c07
 
 import (
+	"strings"
 	"fmt"
 	"os"
 	"sort"
@@ -106,7 +107,7 @@ func checkRecipientFreshness(t vlib.Fataler, test string, sc *scenario, log []*n
 	reps := repeatedAcrossRecipients(sc, log)
 	calibrating := os.Getenv("C07_CALIBRATE") != ""
 	for _, r := range reps {
-		if mayRepeatAcrossRecipients[r.key] {
+		if mayRepeatAcrossRecipients[r.key] || publicModulusPlace(r.key) {
 			continue
 		}
 		if calibrating {
@@ -125,4 +126,13 @@ func checkRecipientFreshness(t vlib.Fataler, test string, sc *scenario, log []*n
 		vlib.Class(test, "p7=public-repeats-seen")
 	}
 	vlib.Class(test, "p7=asserted")
+}
+
+// publicModulusPlace: Paillier ciphertexts, nonces and the residues inside the CGGMP21 proofs carry
+// a self-description of their ring (the modulus N or N^2 of the SENDER's or the recipient's public
+// key: `.../modulus/modulus/natBytes`, `.../n/natPlus/natBytes`). That is public key material which
+// every message under the same key repeats by construction - never a sampled value. Measured with
+// C07_CALIBRATE on the cggmp21 scenario: these are the only places that repeat across recipients.
+func publicModulusPlace(key string) bool {
+	return strings.HasSuffix(key, "/modulus/modulus/natBytes") || strings.HasSuffix(key, "/n/natPlus/natBytes")
 }
